@@ -55,6 +55,9 @@ func genericGuards(r *Run) {
 		r.CheckFrame(r.Prop+".F1", r.Prop+"_frame.json", spec.FrameScope, spec.MinFrame)
 	}
 	r.CheckSelfComparison(r.Prop+".G9", spec.Scope)
+	if r.Prop != "C11" {
+		checkLoopFlags(r, r.Prop+".G8", spec.Scope)
+	}
 }
 
 func checkC02(r *Run) {
